@@ -313,6 +313,38 @@ def quiet():
         yield buf
 
 
+def allcirc_hyp(ck, c, strips, what):
+    """hypotheses of the `..._all_circuits` theorems (Net.wfB, orderOKB, forksOKB when stripping, readsDrivenB), evaluated by
+    the Lean driver (`simopscert`) on the REAL circuit and its REAL topological order. Returns the histogram tag; a circuit
+    whose pin tables / order fail the certificate is a broken tie (the theorems would not speak about it), a circuit
+    outside `forksOKB` / `readsDrivenB` (unknown cell kinds, unscheduled output pins) is only counted."""
+    from . import circ
+    try:
+        dump = circ.dump_net(c)
+        order = ','.join(str(n.index) for n in c.topological_order())
+        lines = [f'net {dump}'] + [f'simopscert {int(bool(st))} {order}' for st in strips]
+        out = run_driver(lines)[1:]
+    except Exception as ex:
+        return f'allcirc-hyp:not-evaluated({type(ex).__name__})'
+    if any('wf=true order=true' not in h for h in out):
+        ck.broken_tie(f'hypotheses Net.wfB / orderOKB of the all-circuits theorems on the real circuit and order ({what})',
+                      ' / '.join(out), inp={'net': dump, 'order': order})
+        return 'allcirc-hyp:FAIL'
+    return 'allcirc-hyp:ok' if all(h == 'wf=true order=true forks=true reads=true' for h in out) else 'allcirc-hyp:outside'
+
+
+def netspec_hyp(c):
+    """hypotheses of the netlist-level reading (C02.sim8_netlist_all_circuits: forksOKB; oracle_labelling_is_simulation:
+    additionally linesDrivenB) on the real circuit and order; histogram tag only"""
+    from . import circ
+    try:
+        order = ','.join(str(n.index) for n in c.topological_order())
+        out = run_driver([f'net {circ.dump_net(c)}', f'netspeccert {order}'])[1]
+    except Exception as ex:
+        return f'netspec-hyp:not-evaluated({type(ex).__name__})'
+    return 'netspec-hyp:' + ('ok' if out == 'forks=true lines=true' else out.replace(' ', ','))
+
+
 def theorems_of(relpath, namespace):
     """names of all `theorem`s declared in a Props file (comments stripped), qualified by its namespace"""
     src = strip_comments(open(os.path.join(LEAN, relpath)).read())
